@@ -312,3 +312,46 @@ def explain_merge(*a):
 
 
 EXPLAIN["_merge"] = explain_merge
+
+
+# ------------------------------------------------------------------ --year options -> one year / range
+import reuse.cli.annotate as _ca  # noqa: E402
+
+YEAR_POOL = ["2016", "2018", "2020", "1999"]
+
+
+def year_story(n, a, b, c, exclude):
+    ys = [YEAR_POOL[_pick(x, 4)] for x in (a, b, c)][: _pick(n, 4)]
+    got = _ca.get_year(ys, True if exclude else False)
+    if exclude:
+        return got is None, ys, got
+    if not ys:
+        return (got is not None and len(got) == 4), ys, got  # today's year
+    if len(ys) == 1:
+        return got == ys[0], ys, got
+    want = cr._parse_copyright_year(got)
+    return (len(want) == 2 and want[0] == min(ys) and want[1] == max(ys)) or (min(ys) == max(ys) and want and want[0] == min(ys) and want[-1] == max(ys)), ys, got
+
+
+def _year(n: int, a: int, b: int, c: int, exclude: bool) -> bool:
+    """
+    pre: 0 <= n < 4 and 0 <= a < 4 and 0 <= b < 4 and 0 <= c < 4
+    post: _
+    """
+    return year_story(n, a, b, c, exclude)[0]
+
+
+def _year_reach(n: int, a: int, b: int, c: int, exclude: bool) -> bool:
+    """
+    pre: 0 <= n < 4 and 0 <= a < 4 and 0 <= b < 4 and 0 <= c < 4
+    post: False
+    """
+    return year_story(n, a, b, c, exclude)[0]
+
+
+def explain_year(*a):
+    ok, ys, got = year_story(*a)
+    return {"years": ys, "exclude": bool(a[4]), "got": got}
+
+
+EXPLAIN["_year"] = explain_year
